@@ -19,3 +19,10 @@ open XsVerif.Props.C08
 #print axioms value_space_partial
 #print axioms strq_counterexample
 #print axioms id_ok_iff
+#print axioms ns_collect_scope
+#print axioms nsAt_eq_scopeAt
+#print axioms collect_before_purge_counterexample
+#print axioms field_scope_partial
+#print axioms field_scope_self
+#print axioms field_scope_repaired
+#print axioms field_scope_counterexample
